@@ -542,7 +542,7 @@ def check_C01(sc, v, tier, seed, replay):
     n = 3 if tier == "quick" else 24
     jobs = []
     for i in range(n):
-        nue = 1 + (i % 3 if tier != "quick" else (1 if i == 2 else 0))
+        nue = 1 + (i % 3 if tier != "quick" else (2 if i == 2 else 0))      # quick: 1, 1 and 3 UEs
         counts = {"reg": nue, "pdu": 0, "svc": 0, "rel": 0, "dereg": 0}
         opts = {"det": i, "mnc_len": 2 + i % 2, "use_opc": i in (0, 1, 4, 5) or i % 4 == 3, "gnb_bits": 22 + (seed + 4 * i) % 11,
                 "name_len": [7, 1, 150, 2, 75][i % 5], "mcc": "001" if i % 3 == 1 else None,
@@ -764,7 +764,8 @@ def check_C16(sc, v, tier, seed, replay):
     rnd = random.Random(seed * 1039 + 16)
     jobs = []
     for i in range(2 if tier == "quick" else 6):
-        scn, text = online.make_scenario(rnd, {"reg": 3 if i % 2 == 0 else 2, "pdu": 0, "svc": 0, "rel": 0, "dereg": 0},
+        nue16 = 3 if i % 2 == 0 else 2
+        scn, text = online.make_scenario(rnd, {"reg": nue16, "pdu": 0, "svc": 0, "rel": 0, "dereg": nue16},
                                          opts={"det": i + seed % 3, "use_opc": i % 2 == 0, "free_msin": True, "lead0": i % 2 == 1,
                                                "mnc_len": 2 + i % 2, "imsi_len": [15, 13, 14][i % 3]})
         jobs.append(("pop%02d" % i, scn, text))
@@ -1047,7 +1048,8 @@ def check_C18(sc, v, tier, seed, replay):
     # (b) on the wire: complete runs with random configurations judged by the TLC AMF (same machinery as C01/C02)
     jobs = []
     for i in range(2 if tier == "quick" else 12):
-        counts = {"reg": 1 + i % 2, "pdu": 1, "svc": i % 2, "rel": 1 - i % 2, "dereg": 1}
+        # run 1: more service requests and releases asked for than sessions, more sessions than ... every clamp of the main program bites
+        counts = {"reg": 1, "pdu": 1, "svc": 0, "rel": 1, "dereg": 1} if i % 2 == 0 else {"reg": 2, "pdu": 1, "svc": 3, "rel": 3, "dereg": 2}
         # run 0: two-digit MNC "0x", OP only; run 1: three-digit MNC "0xy" (numeric value below 100), OPc and OP both given and different
         s2, t2 = online.make_scenario(rnd, counts, opts={"lead0": i % 2 == 0, "det": [2, 1][i % 2] + 3 * (i // 2), "mnc_len": [2, 3][i % 2],
                                                          "use_opc": i % 2 == 1, "gnb_bits": 32 if i % 2 == 1 else 22 + (seed + 4 * (i + 7)) % 11,
